@@ -729,7 +729,7 @@ class SP(Robot):
 
         #Restore original Values
         self.IK(top_plate_pos = old_top_plate_transform, 
-                bottom_plate_pos = old_bottom_plate_transform, protect = protect)
+                bottom_plate_pos = old_bottom_plate_transform, protect = True)
         return inverse_jacobian
 
     """ 
